@@ -198,6 +198,10 @@ def run(ctx):
     res = clijobs.pmap(do_case, list(enumerate(cases)))
 
     seen_ok = seen_refused = 0
+    crashes = {}      # (nfiles, frozenset(graph items), tool, kind) -> detail
+    fails = {}        # (kind, public, form, what) -> {graph class: detail}
+    demanded = {}     # (kind, public, form) -> set of graph classes on which a verdict was demanded
+    gdesc = lambda g: ", ".join(sorted(f"{FILES[a]} -> {FILES[b]} ({'as ns' if st == 'as' else 'unqualified'})" for (a, b), st in g.items())) or "no imports"
     for c, r in zip(cases, res):
         files = r["files"]
         refline_no = files["main.gdn"].count("\n")          # 1-based number of the last line
@@ -205,16 +209,17 @@ def run(ctx):
         vis = visible(c["graph"], c["target"], c["public"], c["form"])
         err = must_be_error(c["target"], c["public"])
         form = "unqualified" if c["form"] == "type-name" else c["form"]
-        base = f"{c['kind']} ({'public' if c['public'] else 'private'}, {form}, {gclass} import)"
-        detail = {"files": files, "graph": sorted(f"{FILES[a]} -> {FILES[b]} ({s})" for (a, b), s in c["graph"].items())}
+        key = (c["kind"], c["public"], form)
+        detail = {"files": files, "graph": gdesc(c["graph"])}
         # -- tools end by themselves
         dead = False
         for tool in ("check", "run"):
             k = clijobs.failure_kind(r[tool])
             if k:
                 dead = True
-                ctx.violation(f"{base}: garden {tool} does not end normally ({k})", dict(detail, stderr=r[tool]["err"][-400:]), cli_cmd=f"garden {tool} main.gdn")
+                crashes.setdefault((c["nfiles"], frozenset(c["graph"].items()), tool, k), dict(detail, stderr=r[tool]["err"][-600:]))
         if dead:
+            ctx.outcome("tool dies")
             continue
         # -- check verdict: error-severity diagnostic on the reference line
         diags = []
@@ -234,24 +239,38 @@ def run(ctx):
         detail.update(check_stdout=r["check"]["out"][-500:], run_stdout=r["run"]["out"][-200:], run_stderr=r["run"]["err"][-400:])
         if other_err:
             ctx.outcome(f"check reports an error elsewhere in main ({gclass})")
-        cli = "garden check --json main.gdn; garden run main.gdn"
         if vis:
+            demanded.setdefault(key, set()).add(gclass)
             seen_ok += run_ok and not check_err
-            if check_err:
-                ctx.violation(f"{base}: check reports an error for a visible reference", detail, cli_cmd=cli)
-            if not run_ok:
-                ctx.violation(f"{base}: run fails on a visible reference", detail, cli_cmd=cli)
-            ctx.outcome(f"visible: {'ok' if run_ok and not check_err else 'refused'}")
+            tools = [t for t, bad in (("check", bool(check_err)), ("run", not run_ok)) if bad]
+            if tools:
+                fails.setdefault(key + (f"visible reference refused by {' and '.join(tools)}",), {}).setdefault(gclass, detail)
+            ctx.outcome(f"visible: {'ok' if not tools else 'refused'}")
         elif err:
+            demanded.setdefault(key, set()).add(gclass)
             seen_refused += (not run_ok) and bool(check_err)
-            if not check_err:
-                ctx.violation(f"{base}: check reports no error for a non-public definition", detail, cli_cmd=cli)
-            if run_ok:
-                ctx.violation(f"{base}: run evaluates a reference to a non-public definition", detail, cli_cmd=cli)
-            ctx.outcome(f"non-public: {'refused by both' if (not run_ok and check_err) else 'reachable'}")
+            tools = [t for t, bad in (("check", not check_err), ("run", run_ok)) if bad]
+            if tools:
+                fails.setdefault(key + (f"non-public definition accepted by {' and '.join(tools)}",), {}).setdefault(gclass, detail)
+            ctx.outcome(f"non-public: {'refused by both' if not tools else 'reachable'}")
         else:
             ctx.outcome(f"not demanded ({'own item via self-import' if c['target'] == 0 else 'public, ' + gclass + ' import, ' + form}): "
                         f"check {'error' if check_err else 'ok'}, run {'ok' if run_ok else 'error'}")
+    cli = "garden check --json main.gdn; garden run main.gdn"
+    for (kind, public, form, what), classes in sorted(fails.items()):
+        head = f"{kind} ({'public' if public else 'private'}, {form})"
+        if set(classes) >= demanded[(kind, public, form)] and len(classes) > 1:
+            ex = classes[sorted(classes)[0]]
+            ctx.violation(f"{head} through every import shape ({'/'.join(sorted(classes))}): {what}", ex, cli_cmd=cli)
+        else:
+            for gc in sorted(classes):
+                ctx.violation(f"{head} through a {gc} import: {what}", classes[gc], cli_cmd=cli)
+    # a dying tool is attributed to the smallest import graphs that kill it (every sub-graph is enumerated too)
+    for (nf, g, tool, k), detail in sorted(crashes.items(), key=lambda kv: (kv[0][0], len(kv[0][1]), sorted(kv[0][1]), kv[0][2])):
+        if any(nf2 <= nf and g2 < g and tool2 == tool for (nf2, g2, tool2, k2) in crashes):
+            ctx.outcome("tool dies on a super-graph of a reported graph")
+            continue
+        ctx.violation(f"import graph {{{gdesc(dict(g))}}}: garden {tool} does not end normally ({k})", detail, cli_cmd=f"garden {tool} main.gdn")
     if seen_ok == 0 or seen_refused == 0:
         raise Machinery(f"vacuous: visible-and-working={seen_ok}, non-public-and-refused={seen_refused}")
     ctx.add(states=len(cases), transitions=2 * len(cases), nontrivial=sum(1 for c in cases if c["graph"]))
